@@ -60,7 +60,7 @@ class Unit:
         self.notes = []
 
 
-DIRECTIVES = ('forwhile', 'selfparam', 'props', 'requires', 'ensures', 'loop', 'rewrite', 'rewrite*', 'insert', 'emit', 'attr', 'rename',
+DIRECTIVES = ('assert', 'forwhile', 'selfparam', 'props', 'requires', 'ensures', 'loop', 'rewrite', 'rewrite*', 'insert', 'emit', 'attr', 'rename',
               'ret', 'end', 'recommends', 'decreases', 'nocanary')
 
 
@@ -149,6 +149,16 @@ def parse_unit(path):
                 cur.nocanary = True
             elif first == 'selfparam':
                 cur.selfparam = rest
+            elif first == 'assert':
+                m = re.match(r'([\w.\-]+)\s*(?:\[([^\]]*)\])?\s*(after|before)(?:\[(\d+)\])?\s*`(.*?)`\s*:\s*(.*)$', rest, re.S)
+                if not m:
+                    err('bad assert')
+                props = m.group(2).replace(',', ' ').split() if m.group(2) else list(cur.props)
+                c = Clause('assert', cur.qual + '.' + m.group(1), props, '')
+                anchor = (m.group(5), int(m.group(4))) if m.group(4) else m.group(5)
+                c.where, c.anchor = m.group(3), anchor
+                cur.clauses.append(c)
+                pending = ((lambda c: lambda t: setattr(c, 'text', t))(c), [m.group(6)])
             elif first == 'forwhile':
                 cur.forwhile = getattr(cur, 'forwhile', []) + [int(x) for x in rest.split()]
             elif first in ('requires', 'ensures', 'recommends', 'decreases'):
@@ -644,6 +654,16 @@ def emit_fn(asm, unit, fs, src, canary):
             ed.edits.append((p, p, '\n' + text + '\n', ('proof', fs.qual)))
         elif where == 'end':
             ed.edits.append((bc, bc, '\n' + text + '\n', ('proof', fs.qual)))
+    # named assertions (obligations with a clause id, placed at an anchor inside the body)
+    for c in fs.clauses:
+        if c.kind == 'assert':
+            j = find_unique(src, c.anchor, bo, bc + 1, f'assert {c.cid}')
+            alen = len(c.anchor[0]) if isinstance(c.anchor, tuple) else len(c.anchor)
+            pos = j + alen if c.where == 'after' else j
+            asm.clauses[c.cid] = c
+            ed.edits.append((pos, pos, '\n proof { assert(\n', ('gen',)))
+            ed.edits.append((pos, pos, f'            {c.text}\n', ('clause', c.cid)))
+            ed.edits.append((pos, pos, ' ); }\n', ('gen',)))
     # loops
     loops = src.loops(bo, bc)
     # R11b: `for` over a range / enumerate()d slice that is left by `break` -> the equivalent `while`
